@@ -207,10 +207,47 @@ func c07Handle(c *Ctx) *RuleResult {
 		}
 		info := u.Info()
 		key := recvName + ".handle"
+		// a helper method of the receiver that releases the handle: returns the Release argument
+		helperRelease := func(n ast.Node) (string, bool) {
+			call, ok := n.(*ast.CallExpr)
+			if !ok {
+				return "", false
+			}
+			sel, ok := ast.Unparen(call.Fun).(*ast.SelectorExpr)
+			if !ok || exprStr(sel.X) != recvName {
+				return "", false
+			}
+			fn := calleeOf(info, call)
+			if fn == nil {
+				return "", false
+			}
+			fd := p.Decl(fn)
+			if fd == nil || fd.Recv == nil || len(fd.Recv.List[0].Names) == 0 || len(fd.Body.List) > 4 {
+				return "", false
+			}
+			hrecv := fd.Recv.List[0].Names[0].Name
+			arg, cnt := "", 0
+			ast.Inspect(fd.Body, func(m ast.Node) bool {
+				if rc, ok := methodCallOn(m, hrecv+".handle", "Release"); ok {
+					cnt++
+					if len(rc.Args) == 1 {
+						arg = exprStr(rc.Args[0])
+					}
+				}
+				return true
+			})
+			if cnt == 1 {
+				return arg, true
+			}
+			return "", false
+		}
 		spec := &OblSpec{Name: "handle", Min: 1, Max: 1,
 			AtEntry: []Born{{Key: key, Pos: u.Decl.Body.Pos()}},
 			Discharge: func(n ast.Node, k string) int {
 				if _, ok := methodCallOn(n, k, "Release"); ok {
+					return 1
+				}
+				if _, ok := helperRelease(n); ok {
 					return 1
 				}
 				return 0
@@ -232,6 +269,9 @@ func c07Handle(c *Ctx) *RuleResult {
 				ast.Inspect(n, func(m ast.Node) bool {
 					if call, ok := methodCallOn(m, k, "Release"); ok && marks["mutated"] && len(call.Args) == 1 && exprStr(call.Args[0]) != "true" {
 						bad = "the statistics were modified on this path but the handle is released as clean: the update is dropped"
+					}
+					if arg, ok := helperRelease(m); ok && marks["mutated"] && arg != "true" {
+						bad = "the statistics were modified on this path but the handle is released as clean (through a helper): the update is dropped"
 					}
 					return true
 				})
